@@ -103,7 +103,12 @@ class World(object):
                 Q.get(False)
             # keep-alive thread: managed thread + virtual time
             vt = type("VT", (), {})()
-            vt.sleep = lambda sec: w.s.wait_until("ping-due", lambda: w.ticks > 0) or w._consume_tick()
+            # virtual time: one ping period elapses per PingTick for EVERY sleeping keep-alive thread (also one that was told to stop
+            # and has not noticed yet), as real time would
+            def vsleep(sec):
+                t0 = w.ticks
+                w.s.wait_until("ping-due", lambda: w.ticks > t0)
+            vt.sleep = vsleep
             vt.time = lambda: 1600000000.0
             self._set(iql, "time", vt)
             cls = iql.YowPingThread
@@ -316,11 +321,12 @@ def replay_path(run, g, path, ropt, popt, label, variant=False):
         # change anything the application or the dispatcher sees (a surviving thread would ping or close again)
         if steps and not steps[-1][1]["pingt"]:
             before = (list(w.app), len(w.wire))
-            w.ticks += 3
-            try:
-                w.s.quiesce()
-            except sched.Deadlock:
-                pass
+            for _ in range(3):
+                w.ticks += 1
+                try:
+                    w.s.quiesce()
+                except sched.Deadlock:
+                    pass
             if (list(w.app), len(w.wire)) != before or w.problems:
                 run.violation("keepalive:survives", "%s after %s: with the keep-alive stopped, three more ping periods changed what the application / dispatcher see: %s %s %s" % (
                     label, [t["name"] for t in trail], w.app[len(before[0]):], w.wire[before[1]:], w.problems[:1]), {"trail": trail})
